@@ -106,24 +106,25 @@ func TestC19HangChild(t *testing.T) {
 }
 
 // confirmHang runs the predicted hang for real in a child process under a watchdog.
-func confirmHang(r *vcore.Run, t *topo, k *curveKit, b string, vals []*big.Int) (confirmed bool, note string) {
+// verdict: +1 the child did not return (confirmed), -1 Solve returned in the child (probe refuted), 0 the child did not get as far as Solve.
+func confirmHang(r *vcore.Run, t *topo, k *curveKit, b string, vals []*big.Int) (verdict int, note string) {
 	dir := vcore.Root() + "/work/C19-children"
 	_ = os.MkdirAll(dir, 0o755)
 	p := fmt.Sprintf("%s/hangcase-%s-seed%d.json", dir, r.Tier, r.Seed)
 	js, _ := json.Marshal(hangCase{Topo: t, Curve: k.name, Builder: b, Vals: strs(vals)})
 	if err := os.WriteFile(p, js, 0o644); err != nil {
-		return false, err.Error()
+		return 0, err.Error()
 	}
-	res := r.RunChild("TestC19HangChild", "hang", []string{"C19_HANG_CASE=" + p}, 40*time.Second)
+	res := r.RunChild("TestC19HangChild", "hang", []string{"C19_HANG_CASE=" + p}, 60*time.Second)
 	log, _ := os.ReadFile(res.LogPath)
 	s := string(log)
 	switch {
 	case strings.Contains(s, "C19-CHILD: SOLVE RETURNED"):
-		return false, "Solve returned in the child process"
+		return -1, "Solve returned in the child process"
 	case res.TimedOut && strings.Contains(s, "C19-CHILD: solving"):
 		inLoop := strings.Contains(s, "BinarySearchFunc") || strings.Contains(s, "GkrSolveHint")
-		return true, fmt.Sprintf("child Solve did not return within 40s; goroutine dump mentions the solving hint: %v", inLoop)
+		return 1, fmt.Sprintf("re-run in a child process: Solve did not return within 60s; goroutine dump mentions the solving hint: %v", inLoop)
 	default:
-		return false, "child did not reach Solve: " + short(fmt.Errorf("%s", res.Output))
+		return 0, "child process did not reach Solve: " + short(fmt.Errorf("%s", res.Output))
 	}
 }
